@@ -29,6 +29,18 @@ def rsa_pool() -> list[dict]:
     return _POOL
 
 
+_X5C = None
+
+
+def x5c_fixture() -> dict:
+    """real certificates (standard base64 with '+' and '/', as RFC 7515 4.1.6 demands) and one whose version number no parser knows"""
+    global _X5C
+    if _X5C is None:
+        with open(os.path.join(VERIF_DIR, "fixtures", "x5c.json")) as f:
+            _X5C = json.load(f)
+    return _X5C
+
+
 _RSA_CACHE: dict = {}
 
 
@@ -108,6 +120,9 @@ def key_for_jws(rng: Rng, alg: str, params=None, avoid=None) -> RKey:
         crv = rng.pick(["Ed25519", "Ed448"])
     if kty == "oct":
         return make_oct(rng, rng.pick([1, 16, 32, 33, 64, 100]), params)
+    if kty == "RSA":
+        # moduli whose bit length is not a multiple of 8 (and of 64) exist in the field: signatures are as long as the modulus in octets
+        return make_rsa(rng, rng.pick([2048, 2048, 2048, 2047, 2040]), params, avoid)
     return make_kind(rng, kty, crv, params, avoid=avoid)
 
 
